@@ -414,6 +414,10 @@ func (r *Runner) assignVal(name string, prev expand.Variable, as *syntax.Assign,
 			prev.Str += s
 		case expand.Indexed:
 			// Appends to the element at index 0, creating it if unset.
+			// The list may be shared with a parent or concurrent shell.
+			// TODO: only clone when inside a subshell and getting a var from outside for the first time
+			prev.List = slices.Clone(prev.List)
+			prev.Indexes = slices.Clone(prev.Indexes)
 			if len(prev.List) > 0 && (prev.Indexes == nil || prev.Indexes[0] == 0) {
 				prev.List[0] += s
 			} else {
